@@ -67,6 +67,8 @@ type Term struct {
 	// solver bookkeeping
 	defEpoch int32
 	hard     bool // cone contains non-linear / division arithmetic
+	ctree    bool // constant, or an ite tree whose leaves are all constants
+	csize    int  // number of ite nodes in such a tree
 }
 
 type termKey struct {
@@ -109,6 +111,15 @@ func (tt *TermTable) mk(op Op, w int, c uint64, name string, a []*Term) *Term {
 	}
 	t := &Term{ID: tt.next, Op: op, W: w, A: a, C: c, Name: name, defEpoch: -1}
 	tt.next++
+	switch op {
+	case OpConst, OpTrue, OpFalse:
+		t.ctree = true
+	case OpIte:
+		if a[1].ctree && a[2].ctree {
+			t.ctree = true
+			t.csize = 1 + a[1].csize + a[2].csize
+		}
+	}
 	switch op {
 	case OpMul, OpUDiv, OpSDiv, OpURem, OpSRem:
 		// multiplication/division by a power of two is cheap; everything else is "hard"
@@ -289,6 +300,21 @@ func (tt *TermTable) Eq(a, b *Term) *Term {
 	return tt.mk(OpEq, 0, 0, "", []*Term{a, b})
 }
 
+// mapLeaves rebuilds a constant-leaf ite tree with f applied to every leaf.
+func (tt *TermTable) mapLeaves(t *Term, f func(*Term) *Term, memo map[int32]*Term) *Term {
+	if t.Op != OpIte {
+		return f(t)
+	}
+	if r, ok := memo[t.ID]; ok {
+		return r
+	}
+	r := tt.Ite(t.A[0], tt.mapLeaves(t.A[1], f, memo), tt.mapLeaves(t.A[2], f, memo))
+	memo[t.ID] = r
+	return r
+}
+
+const liftLimit = 256
+
 // Bin builds a binary bit-vector operation (result width = operand width) with constant folding.
 func (tt *TermTable) Bin(op Op, a, b *Term) *Term {
 	if a.W != b.W || a.W == 0 {
@@ -298,6 +324,17 @@ func (tt *TermTable) Bin(op Op, a, b *Term) *Term {
 	if a.Op == OpConst && b.Op == OpConst {
 		if c, ok := foldBin(op, w, a.C, b.C); ok {
 			return tt.Const(w, c)
+		}
+	}
+	// ite lifting: op(ite-tree-of-constants, k) = ite-tree of folded constants (no arithmetic left)
+	if a.Op == OpIte && a.ctree && a.csize <= liftLimit && b.Op == OpConst {
+		if !((op == OpSDiv || op == OpSRem) && b.C == 0) {
+			return tt.mapLeaves(a, func(l *Term) *Term { return tt.Bin(op, l, b) }, map[int32]*Term{})
+		}
+	}
+	if b.Op == OpIte && b.ctree && b.csize <= liftLimit && a.Op == OpConst {
+		if op != OpSDiv && op != OpSRem && op != OpUDiv && op != OpURem {
+			return tt.mapLeaves(b, func(l *Term) *Term { return tt.Bin(op, a, l) }, map[int32]*Term{})
 		}
 	}
 	switch op {
@@ -471,6 +508,12 @@ func (tt *TermTable) Cmp(op Op, a, b *Term) *Term {
 	}
 	if a == b {
 		return tt.Bool(op == OpULe || op == OpSLe)
+	}
+	if a.Op == OpIte && a.ctree && a.csize <= liftLimit && b.Op == OpConst {
+		return tt.mapLeaves(a, func(l *Term) *Term { return tt.Cmp(op, l, b) }, map[int32]*Term{})
+	}
+	if b.Op == OpIte && b.ctree && b.csize <= liftLimit && a.Op == OpConst {
+		return tt.mapLeaves(b, func(l *Term) *Term { return tt.Cmp(op, a, l) }, map[int32]*Term{})
 	}
 	if op == OpULt && b.Op == OpConst && b.C == 0 {
 		return tt.ff
